@@ -3,6 +3,7 @@ import PflDrv.Json
 import Pfl.Model.Feature
 import Pfl.Oracle.FsGround
 import Pfl.Model.FeatureDag
+import Pfl.Model.Earley
 open Lean Pfl
 namespace PflDrv
 
@@ -39,6 +40,24 @@ def fsHandle (op : String) (j : Json) : R Json := do
     let vals ← asStrList (← field j "vals")
     let ss ← (← asArr (← field j "structures")).mapM asSFS
     pure (jList jNatList (ss.map (FsGround.meaning paths vals)))
+  | "fs.earley" =>   -- faithful model of FCFG.contains on the harness's agreement grammars
+    let start ← asStr (← field j "start")
+    let ws ← (← asArr (← field j "words")).mapM asStrList
+    let asFeat : Json → R (Option String) := fun x => if x.isNull then pure none else some <$> asStr x
+    let prods ← (← asArr (← field j "prods")).mapM fun pr => do
+      match ← asArr pr with
+      | [hd, body] =>
+        match ← asArr hd with
+        | [h, hf] =>
+          let items ← (← asArr body).mapM fun it => do
+            match ← asArr it with
+            | [k, x] => if (← asStr k) == "t" then pure (Sym.ter (← asStr x), (none : Option String)) else pure (Sym.var (← asStr x), none)
+            | [k, x, f] => if (← asStr k) == "t" then pure (Sym.ter (← asStr x), none) else pure (Sym.var (← asStr x), (← asFeat f))
+            | _ => throw "bad body item"
+          pure (((← asStr h), (← asFeat hf)), items)
+        | _ => throw "bad head"
+      | _ => throw "bad production"
+    pure (jList (jOpt jBool) (ws.map fun w => Earley.containsSpec prods start w 20000))
   | "fs.unifyDag" =>   -- faithful store model of unify with sharing, on structures built like build_sfs
     let paths ← (← asArr (← field j "paths")).mapM asStrList
     let a ← asSFS (← field j "a")
